@@ -29,8 +29,9 @@ vlib.standard_check({
             "the printed trace changed",
     "trusted_base": ["Lean 4.33 kernel", "axioms: propext, Classical.choice, Quot.sound only (audited per theorem)",
                      "harness/c01.cpp + designgen.h + Driver/C01.lean", "gatery's ReferenceSimulator as the semantics of both circuits (its own correctness is C03/C04/C08)"],
-    "level_text": "F (the property's trace relation) is defined in Lean and evaluated on implementation traces of generated designs at every pass boundary; "
-                  "universal rewrite-rule theorems are being added (see Properties/C01.lean header).",
+    "level_text": "Lean theorems: congruence (one locally sound node replacement preserves F on every node value of any netlist; any number of "
+                  "replacements preserves identity on defined runs and compatibility), value-level soundness of the rewrites of six optimisation passes "
+                  "for all four-state values; F is evaluated on implementation pin traces of generated designs at every pass boundary and at the end.",
     "assumptions": ["'run free of undefined values' = stimulus and every node output of the unprocessed circuit defined at every sample point",
                     "a design on which post-processing throws is counted (postprocess_threw), not judged"],
 })
